@@ -17,10 +17,11 @@ Things outside the model (stated once):
   C16's; C11 feeds ASCII cursors only);
 * `serde_json` is modelled for the shapes listed at `parseSort`; inputs that are valid for serde
   in ways the model does not follow (struct given as a JSON array, nested arrays/objects as the
-  value of an unknown key, `"v"` before `"t"` inside a value, extra keys inside a value,
-  float exponents near the f64 range) are answered `unmodelled`, never `ok`/`error`;
-* an `f64` sort value is kept as its JSON number **lexeme** (float printing/parsing is a
-  parameter of the model, DESIGN §3.2/§3.5).
+  value of an unknown key, `"v"` before `"t"` inside a value, extra keys inside a value) are
+  answered `unmodelled`, never `ok`/`error`;
+* an `f64` sort value travels as its **bit pattern** (`f64::to_bits`, a `u64`; reader.rs since
+  0331be9, `SORT_CURSOR_VERSION = 3`), so the codec is exact; before that commit it was a JSON
+  number whose text serde_json does not always parse back (legacy witness in `Props/C11`).
 -/
 namespace SL.Cursor
 
@@ -92,7 +93,7 @@ deriving Repr, DecidableEq
 
 def maxCursorAdvance : Nat := 50000
 def cursorVersion : Nat := 1
-def sortCursorVersion : Nat := 2
+def sortCursorVersion : Nat := 3
 
 /-! ## score cursor -/
 
@@ -157,7 +158,7 @@ def decodeScore (req : Req) (raw : Bytes) : Dec ScoreCursor :=
 inductive CVal where
   | score (bits : Nat)
   | i64 (v : Int)
-  | f64 (lex : Bytes)     -- JSON number lexeme
+  | f64 (bits : Nat)      -- `f64::to_bits`
   | str (s : Bytes)       -- UTF-8 bytes of the keyword
   | missing
 deriving DecidableEq, Repr
@@ -245,7 +246,7 @@ def tagged (tag val : Bytes) : Bytes := 123 :: (mem kT (quoted tag) ++ 44 :: (me
 def printVal : CVal → Bytes
   | .score b => tagged tScore (natDec b)
   | .i64 v => tagged tI64 (intDec v)
-  | .f64 l => tagged tF64 l
+  | .f64 b => tagged tF64 (natDec b)
   | .str s => tagged tStr (jsonStr s)
   | .missing => 123 :: (mem kT (quoted tMissing) ++ [125])
 
@@ -493,14 +494,8 @@ def readUnsigned (max : Nat) (bs : Bytes) : Rd Nat :=
     | some v => .ok v r
     | none => .err
 
-/-- positive exponents this large are left to the real float parser ("number out of range");
-large negative exponents underflow to zero and are accepted -/
-def expTooLarge (n : Num) : Bool :=
-  match n.exp with
-  | none => false
-  | some (eneg, ds) => !eneg && digitsVal ds > 280
-
 def u32Max : Nat := 4294967295
+def u64Max : Nat := 18446744073709551615
 
 /-- after the content of a value: `}` closes it, a further key is outside the model -/
 def closeVal (v : CVal) (rest : Bytes) : Rd CVal :=
@@ -531,8 +526,10 @@ def readContent (tag : Bytes) (bs : Bytes) : Rd CVal :=
         match n.asI64 with
         | some v => closeVal (.i64 v) rb
         | none => .err
-      else if expTooLarge n then .unm
-      else closeVal (.f64 n.lex) rb
+      else
+        match n.asUnsigned u64Max with
+        | some v => closeVal (.f64 v) rb
+        | none => .err
 
 def knownTag (tag : Bytes) : Bool :=
   tag = tScore || tag = tI64 || tag = tF64 || tag = tStr || tag = tMissing
@@ -978,5 +975,53 @@ def liveCount : Index → Nat
 def compact (idx : Index) : Index :=
   if idx.length ≤ 1 then idx
   else [{ generation := manifestGen idx + 1, docs := liveCount idx, deleted := [] }]
+
+/-! ### the manifest revision (fc973e1): what cursors are bound to -/
+
+/-- manifest = segments + `revision: u32` -/
+structure IndexState where
+  segs : Index
+  revision : Nat
+deriving DecidableEq, Repr
+
+def u32Mod : Nat := 4294967296
+
+/-- `revision.wrapping_add(1)` -/
+def bump (r : Nat) : Nat := (r + 1) % u32Mod
+
+/-- an operation on the index: a commit with `pending` queued operations (`dels` tombstones,
+`adds` documents in the new segment) or a compaction -/
+inductive IdxOp where
+  | commit (dels : List (Nat × Nat)) (adds : Nat) (pending : Nat)
+  | compact
+deriving Repr
+
+/-- does the operation do anything?  `IndexWriter::commit` returns early without pending
+operations; `Index::compact` returns early with ≤ 1 segment.  Exactly these bump the revision. -/
+def IdxOp.effective (st : IndexState) : IdxOp → Bool
+  | .commit _ _ pending => pending != 0
+  | .compact => decide (1 < st.segs.length)
+
+def IdxOp.apply (st : IndexState) (op : IdxOp) : IndexState :=
+  if op.effective st then
+    match op with
+    | .commit dels adds _ => { segs := SL.Cursor.commit st.segs dels adds, revision := bump st.revision }
+    | .compact => { segs := SL.Cursor.compact st.segs, revision := bump st.revision }
+  else st
+
+def runOps (st : IndexState) : List IdxOp → IndexState
+  | [] => st
+  | op :: r => runOps (op.apply st) r
+
+/-- number of effective operations along a history -/
+def effCount (st : IndexState) : List IdxOp → Nat
+  | [] => 0
+  | op :: r => (if op.effective st then 1 else 0) + effCount (op.apply st) r
+
+/-- the generation `IndexReader::search` compares cursors with -/
+def readerGen (st : IndexState) : Nat := st.revision
+
+/-- the same before fc973e1: the maximal segment generation -/
+def readerGenLegacy (st : IndexState) : Nat := manifestGen st.segs
 
 end SL.Cursor
